@@ -75,8 +75,8 @@ func ceremony(ctx context.Context, c *kernel.Ctx, cer int, net *simnet.Net) {
 		if n > 5 {
 			n, t = 4, 3
 		}
-		if vals > 2 {
-			vals = 2
+		if vals > 3 {
+			vals = 3
 		}
 	}
 	if c.Mode == "frost" {
